@@ -120,10 +120,10 @@ FUNCS = [
     Fn("layout_from_size_align", "free", "pure", group="Arith"),
     Fn("new_chunk_memory_details", "assoc", "pure", group="Details"),
     Fn("chunk_fits_under_limit", "assoc", "pure", group="Details"),
-    Fn("allocated_bytes", "bump", "read", group="Limit"),
+    Fn("allocated_bytes", "bump", "read", group="Bytes"),
     Fn("allocation_limit", "bump", "read", group="Limit"),
     Fn("allocation_limit_remaining", "bump", "read", group="Limit"),
-    Fn("chunk_capacity", "bump", "read", group="Limit"),
+    Fn("chunk_capacity", "bump", "read", group="Bytes"),
     Fn("is_empty", "chunk", "read", group="Footer", anchor="impl ChunkFooter"),
     Fn("set_ptr", "chunk", "st", group="Footer", anchor="impl ChunkFooter"),
     Fn("try_alloc_layout_fast", "bump", "st", group="Fast"),
@@ -1367,8 +1367,8 @@ def translate_all(repo):
     return groups, report
 
 
-GROUP_IMPORTS = {"Arith": [], "Details": ["Arith"], "Limit": ["Arith"], "Footer": ["Arith"], "Fast": ["Arith", "Footer"],
-                 "Realloc": ["Arith", "Fast", "Footer", "Limit"], "RawVec": [], "Reset": ["Arith", "Footer"], "Rewind": ["Arith", "Footer", "Limit", "Fast", "Realloc"], "NewChunk": ["Arith"], "Iter": ["Arith", "Footer"], "Slow": ["Arith", "Details", "Limit", "Footer", "Fast", "NewChunk"]}
+GROUP_IMPORTS = {"Arith": [], "Details": ["Arith"], "Bytes": ["Arith"], "Limit": ["Arith", "Bytes"], "Footer": ["Arith"], "Fast": ["Arith", "Footer"],
+                 "Realloc": ["Arith", "Fast", "Footer", "Limit"], "RawVec": [], "Reset": ["Arith", "Footer"], "Rewind": ["Arith", "Footer", "Limit", "Fast", "Realloc"], "NewChunk": ["Arith"], "Iter": ["Arith", "Footer"], "Slow": ["Arith", "Details", "Bytes", "Limit", "Footer", "Fast", "NewChunk"]}
 GROUP_PRELUDE = {"RawVec": "BumpVerif.Model.RsVec"}
 
 
